@@ -8,10 +8,11 @@ CONSTANTS
   RSizes = {"one", "small", "big"}
   Concurrent = TRUE
   AtomicFrames = TRUE
+  LimitOnlyOnReaderPath = FALSE
   Gen = FALSE
   Emit = FALSE
 INIT Init
 NEXT Next
 VIEW view
-INVARIANTS TypeOK FramesAtomic WritesAccepted InOrderPrefix NoForeignStrict EofCompleteStrict DoneComplete ReaderAllocBound
+INVARIANTS TypeOK FramesAtomic WritesAccepted InOrderPrefix NoForeignStrict EofCompleteStrict DoneComplete ReaderAllocBound DecoderBounded EntriesAgree
 CHECK_DEADLOCK FALSE
